@@ -71,6 +71,8 @@ EDGES = {
     # a type reachable only as the argument of a parameter that has a default and that no field names
     "default_param_arg_inline": "pub struct R§ { pub f: GD§<D§>, pub n: i32 }",
     "default_param_arg_phantom": "pub struct R§ { pub f: Option<GP§<E§>>, pub n: i32 }",
+    # a parameter that is made concrete AND has a default: the default is not part of the declaration
+    "concrete_with_default": '#[ts(concrete(T = D§))] pub struct R§<T = E§> { pub f: T, pub n: i32 }',
 }
 
 # What each root refers to, read off its source above the way the documentation describes dependencies:
@@ -124,6 +126,7 @@ EDGE_DEPS = {
     "shared_importers_direct": (["UA", "LB"], []),
     "default_param_arg_inline": (["GD", "D"], []),
     "default_param_arg_phantom": (["GP", "E"], []),
+    "concrete_with_default": (["D"], []),
 }
 HELPER_DEPS = {"D": ([], []), "E": ([], []), "G": ([], []), "M": (["D", "E"], []), "C": (["R", "D"], []), "S1": (["D"], []),
                "S2": (["E", "S1"], []), "FE": (["D", "E"], []), "LA": ([], []), "LB": ([], []), "UA": (["LA"], []), "UB": (["LB"], []),
@@ -173,6 +176,8 @@ def case_unit(n, case):
     root_ty = "R%s" % g
     if case["edge"] == "param_default":
         root_ty = "R%s<D%s>" % (g, g)
+    if case["edge"] == "concrete_with_default":
+        root_ty = "R%s<D%s>" % (g, g)
     if case["edge"] == "inline_then_default":
         root_ty = "R%s<M%s>" % (g, g)
     return corpus.Unit("X%s" % g, src, [], serde=False, meta={"root_ty": root_ty, "case": case})
@@ -190,7 +195,7 @@ def snapshot(root):
 PRE_EXISTING = {"out/notes.txt": "kept\n", "out/sub/keep.me": "kept too\n", "unrelated/Other.ts": "export type Unrelated = 1;\n"}
 
 
-def export_cases(tier, esm, stats, sandbox):
+def export_cases(tier, esm, stats, sandbox, twice=False):
     """PREDICT the cases with Graphs.tla, build them, export every root into a fresh directory that
     holds a few unrelated files.  -> (units, observations, {unit: result}, {unit: tree before})"""
     cfgp = os.path.join(vlib.TMP, "graphs-cfg.json")
@@ -220,13 +225,19 @@ def export_cases(tier, esm, stats, sandbox):
         before[u.name] = snapshot(d)
         reqs.append({"name": u.name, "cwd": d, "dir": DIRS[u.meta["case"]["dir"]].replace("{ABS}", d)})
     res = {r_["name"]: r_["result"] for r_ in c.export(reqs)}
+    # the same process exports the modules whose paths leave the directory once more, into a directory at another
+    # depth: what is written there must not depend on the first export
+    again = [dict(r_, dir="deeper/nested/out2") for r_, u in zip(reqs, units) if twice and "escape" in (u.meta["case"]["dplace"], u.meta["case"]["rplace"])]
+    for r_ in c.export(again) if again else []:
+        if r_["result"] != "Ok":
+            res[r_["name"]] = r_["result"]
     return units, obs, res, before
 
 
 def run_mode(tier, esm, v, stats, prop=PROP, payload="BAD"):
     sandbox = vlib.shm_dir("c03")
     try:
-        units, obs, res, before = export_cases(tier, esm, stats, sandbox)
+        units, obs, res, before = export_cases(tier, esm, stats, sandbox, twice=True)
         recs, meta = [], []
         for u in units:
             case = u.meta["case"]
